@@ -10,7 +10,8 @@ import (
 //
 //	router(2) x auth method(4) x target(9 grant_type values on the token endpoint + introspection + revocation(access, refresh) + device_authorization)
 //	x presentation(24) x grant registered for the client(2, where a grant is involved) x grant / capability enabled(2, where a flag exists)
-//	x AuthMethodPost flag(2) x key registered(2) x jwt-bearer grant assertion(8 kinds, that target only)
+//	x AuthMethodPost flag(2) x key registered(2) x jwt-bearer grant assertion(7 kinds, that target only)
+//	x stored secret for private_key_jwt / public clients(2)
 //
 // and, with wide=true (thorough tier), additionally application type(3) x id/secret needing percent-encoding(2).
 // The remaining axes (conflicting client_id, parameters in the URL, private_key_jwt flag, storage faults, token_type_hint,
@@ -64,28 +65,31 @@ func sweepCells(wide bool) []Case {
 									for _, ga := range gas {
 										for _, app := range appTypes(m) {
 											for _, sp := range specials {
-												c := Case{Router: router, Endpoint: tg.endpoint, Grant: tg.grant, Pres: pres, ParamsIn: "body", GrantAssertion: ga, TokenKind: tg.kind}
-												c.Flags = Flags{Post: post, PKJWT: true, Refresh: true, CC: true, TE: true, Device: true}
-												if !en {
-													switch relevant {
-													case vkit.GRefr:
-														c.Flags.Refresh = false
-													case vkit.GCC:
-														c.Flags.CC = false
-													case vkit.GTE:
-														c.Flags.TE = false
-													case vkit.GDevice:
-														c.Flags.Device = false
+												for _, stored := range storedAxis(m) {
+													c := Case{Router: router, Endpoint: tg.endpoint, Grant: tg.grant, Pres: pres, ParamsIn: "body", GrantAssertion: ga, TokenKind: tg.kind}
+													c.Flags = Flags{Post: post, PKJWT: true, Refresh: true, CC: true, TE: true, Device: true}
+													if !en {
+														switch relevant {
+														case vkit.GRefr:
+															c.Flags.Refresh = false
+														case vkit.GCC:
+															c.Flags.CC = false
+														case vkit.GTE:
+															c.Flags.TE = false
+														case vkit.GDevice:
+															c.Flags.Device = false
+														}
 													}
-												}
-												for _, g := range vkit.AllGrants {
-													if reg || g != relevant {
-														c.Reg.Grants = append(c.Reg.Grants, g)
+													for _, g := range vkit.AllGrants {
+														if reg || g != relevant {
+															c.Reg.Grants = append(c.Reg.Grants, g)
+														}
 													}
+													c.Reg.AuthMethod, c.Reg.AppType, c.Reg.HasKeys, c.Reg.Special = m, app, keys, sp
+													c.Reg.Service = has(c.Reg.Grants, vkit.GCC)
+													c.Reg.StoredSecret = stored
+													out = append(out, c)
 												}
-												c.Reg.AuthMethod, c.Reg.AppType, c.Reg.HasKeys, c.Reg.Special = m, app, keys, sp
-												c.Reg.Service = has(c.Reg.Grants, vkit.GCC)
-												out = append(out, c)
 											}
 										}
 									}
@@ -98,6 +102,14 @@ func sweepCells(wide bool) []Case {
 		}
 	}
 	return out
+}
+
+// storedAxis: private_key_jwt and public clients are enumerated with and without a secret the storage also accepts.
+func storedAxis(m string) []bool {
+	if m == mPKJWT || m == mNone {
+		return []bool{false, true}
+	}
+	return []bool{false}
 }
 
 // TestSweep runs the enumeration: all of it in the thorough tier (split over VERIF_SHARDS processes), every 12th cell
@@ -131,7 +143,7 @@ func TestSweep(t *testing.T) {
 	if shard == 0 {
 		rec.SetExtra("sweep_cells_total", len(cells))
 		if wide {
-			rec.SetExtra("sweep_exhaustive", "router x auth method x target x presentation x registered x enabled x post flag x key x grant assertion x app type x special characters")
+			rec.SetExtra("sweep_exhaustive", "router x auth method x target x presentation x registered x enabled x post flag x key x grant assertion x stored secret x app type x special characters")
 		} else {
 			rec.SetExtra("sweep_exhaustive", "no: quick tier runs every 12th cell of the narrow enumeration")
 		}
